@@ -244,6 +244,7 @@ impl Ctx {
         t.insert(std::thread::current().id(), 0);
     }
     pub fn ev(&self, v: Value) {
+        crate::progress();
         self.log.lock().unwrap().push(v);
     }
     pub fn take_log(&self) -> Vec<Value> {
@@ -537,6 +538,26 @@ macro_rules! with_zsys {
             _ => unreachable!("zero-sized slot out of range"),
         }
     };
+}
+
+/// A harness system that leaves the library's PROVIDED `System::setup` / `dispose` in place (most user systems
+/// do): no hook events, but what its accessor provides must exist after `Dispatcher::setup`.
+pub struct HNoHook(pub HSys);
+
+impl<'a> System<'a> for HNoHook {
+    type SystemData = HData<'a>;
+
+    fn run(&mut self, data: HData<'a>) {
+        run_body(self.0.gid, &self.0.ctx, data, self as *const _ as usize);
+    }
+
+    fn running_time(&self) -> RunningTime {
+        rt(self.0.t)
+    }
+
+    fn accessor<'b>(&'b self) -> AccessorCow<'a, 'b, Self> {
+        AccessorCow::Ref(&self.0.acc)
+    }
 }
 
 /// Panic payload of harness-injected panics.
